@@ -866,4 +866,10 @@ example : obsImpl (.variable 16) ⟨[0x25, 0x00], 9⟩ =
   simp only [tyOf, Spec.ser]
   decide
 
+/-- `Display` of a bitvector is the boolean sequence written with '0' / '1', lowest index first -/
+theorem obs_display (k : BKind) (bf : BF) (h : Valid k bf) :
+    bf.display = bf.abs.map fun b => if b then 49 else 48 := by
+  unfold BF.display
+  rw [obs_iter k bf h]
+
 end Ssz.C11
